@@ -119,7 +119,7 @@ theorem duo_request_hq0 {cfg : Cfg} {G : Nat} {n : Net} {x y : Nat} {stx sty : N
   have htxsX : n.bus.txs = dn ++ rs := hX.2.2.2.2.2.2.2.1
   refine ⟨_, _, lY, coll, ⟨hS, .inl hs'.1, hs'.2, ?_, ?_, ?_,
     by rw [hset, List.getElem?_set_ne hxy]; exact d.gy, d.yx, by rw [hbus, e4]; simp only [List.length_set]; exact d.ys,
-    by rw [hset, List.length_set]; exact d.yl, by rw [haddr]; exact hX', ?_, hpy, hpb, ?_, ?_, (by show c.s.ring.ts = c.s.p.address; rw [hp']; exact hv'.ts)⟩, ?_⟩
+    by rw [hset, List.length_set]; exact d.yl, by rw [haddr]; exact hX', ?_, hpy, hpb, ?_, ?_, (by show RingView [c.s.p.address] c.s.p.address c.s.ring; rw [hp']; exact hv')⟩, ?_⟩
   · rw [haddr, hbus]
     refine ⟨e3.trans d.lone.rate, e5.trans d.lone.corrupt, ?_, ?_, ?_, ?_⟩
     · rw [e1]
